@@ -55,6 +55,7 @@ def run(cx):
             row["id"] = tid
             row["seed"] = cx.seed * 100000 + tid
             row["procs"] = procs
+            row["timeout_s"] = 20 if cx.quick() else 120
             rows.append(row)
             tid += 1
         tin = cx.path("topo%d.ndjson" % procs)
@@ -77,7 +78,8 @@ def run(cx):
             nmsg += r_["ns"] * r_["msgs"]
             marks = {(m["ev"], m["t"]): m["v"] for m in res.get("marks") or []}
             exp = {("spawn", 1): "5", ("spawn", 2): "6", ("wait", 1): "51", ("wait", 2): "62", ("waiterr", 3): '"boom"',
-                   ("go", 4): "[13, 23, 33, 43]", ("go", 5): "8", ("go", 6): "9", ("go", 7): "407"}
+                   ("go", 4): "[13, 23, 33, 43]", ("go", 5): "8", ("go", 6): "9", ("go", 7): "407",
+                   ("closure", 8): "[105, 6, 5]", ("closure", 9): "[7, 7]"}
             if marks != exp:
                 bad_marks.append((r_["id"], marks))
     langlib.tlc_conform(cx, traces, spec="TraceChan", prefix="trace", strip=(), nshards=8)
